@@ -109,13 +109,27 @@ func VH_C19_SetText(n0, n1, order int) {
 	vhCover("settext")
 }
 
+// vhCanonListFull: canonical list over the whole range 1..2^63-1 (no end+1 arithmetic).
+func vhCanonListFull(k int) []interval {
+	ivs := make([]interval, k)
+	for i := 0; i < k; i++ {
+		s, e := vhI64(), vhI64()
+		vhAssume(s >= 1 && s <= e)
+		if i > 0 {
+			vhAssume(ivs[i-1].end < s-1)
+		}
+		ivs[i] = interval{s, e}
+	}
+	return ivs
+}
+
 func VH_C19_SIDBlock(n0, n1 int) {
 	set := Mysql56GTIDSet{}
 	if n0 > 0 {
-		set[vhSIDs[0]] = vhCanonList(n0)
+		set[vhSIDs[0]] = vhCanonListFull(n0)
 	}
 	if n1 > 0 {
-		set[vhSIDs[1]] = vhCanonList(n1)
+		set[vhSIDs[1]] = vhCanonListFull(n1)
 	}
 	blk := set.SIDBlock()
 	back, err := NewMysql56GTIDSetFromSIDBlock(blk)
@@ -144,7 +158,7 @@ func VH_C19_Events(kind int) {
 		vhCover("gtid-event")
 	case 1:
 		// independent SID block writer: two SIDs, 1 and 2 intervals
-		iv0, iv1 := vhCanonList(1), vhCanonList(2)
+		iv0, iv1 := vhCanonListFull(1), vhCanonListFull(2)
 		w := &vw{}
 		w.u64(2)
 		w.raw(vhSIDs[0][:])
